@@ -179,10 +179,12 @@ inductive IBody where
   | maxBuffer (levels : List Term)
   | minBuffer (levels : List Term)
   | residue
+  | partial_ (fs : List Fml)      -- raised on a duplicate assertion after having appended these
   deriving Inhabited
 
 structure Indicator where
   id : Nat
+  key : Option String := none   -- the name it is registered under (`none` = auto-generated)
   name : String               -- the *reported* name (after the subclass renamed itself)
   var : IVar                  -- `_indicator_variable`
   bounds : Option (Int × Int)
